@@ -84,6 +84,8 @@ func (e *Env) Explore(maxPaths int, body func(ex *Exec)) (paths []*PathResult, c
 						pr.Outcome, pr.Msg = "panic", x.msg
 					case infeasible:
 						pr.Outcome = "infeasible"
+					case loopStepDone:
+						pr.Outcome = "loop-step"
 					default:
 						// a defect of the executor or a model meeting a value shape it does not
 						// handle: the path is outside the subset (never silently dropped)
@@ -260,6 +262,7 @@ func (e *Env) VerifyFunc(fn *ssa.Function, ct *Contract, maxPaths int) *FuncResu
 		ex.TopFn = fn
 		args, ev, _ := e.bindArgs(ex, fn, ct)
 		e.snapshotOld(ex, fn, args, ev)
+		ex.TopEv, ex.TopCt = ev, ct
 		if ct != nil {
 			for _, r := range append(append([]*Clause{}, ct.Assumes...), ct.Requires...) {
 				r := r
